@@ -158,6 +158,28 @@ pub fn lines_strategy() -> impl Strategy<Value = InputCase> {
             "@salt{1%pinch} then @&salt{to taste}", "@salt{to taste} then @&salt{1%pinch} and @&salt{a bit}",
             // notes with nothing in them
             "@onion{1}() @garlic{2%cloves}( ) @salt() #pan() ~t{1%min}()",
+            // a text amount first, a number in a later reference (and the reverse), for cookware and ingredients
+            "#pan{big} then #&pan{2}", ">> [duplicate]: ref\n#bowl{large} #bowl{1} #bowl{2}", "#pan{2} then #&pan{big} and #&pan{3}", "@salt{some} @&salt{2} @&salt{1%g}",
+            // mixed numbers with a zero part
+            "@flour{1 0/2%cup}", "#pan{2 0/3}", "~{1 0/2%min}", "@milk{1 0/2 cup}", "@w{1-2 0/2%l}", "@x{0 1/2%kg}", "@x{0 0/2}", "@y{0/4%g}",
+            // a blank between the number of an intermediate reference and the closing parenthesis
+            "Knead.\n\nBake the @&(~1 )dough{}.", "@&(7 )x{}", "#&(1 )pan{}", "@&( =~1 )y{}", "Knead.\n\nBake @&(~1\u{a0})dough{} and @&(7\u{3000})x{}",
+            // characters without width next to the places diagnostics point at
+            "Add @flour{200%g}\u{200b}\n\nAdd more @&flour{}(sifted).", "@a{}\u{200b} @&a{}(n)\u{200d}", "~{}\u{200b}", "@\u{200b}{}", "@a|\u{feff}{}", "#p{1%kg}\u{301}", ">> \u{200b}: v",
+            // a line made of escapes only, between other lines
+            "first line\n\\a\nlast line", "  \\1\\2  ", "x\n\\é\\b\ny", "> note\n\\n\n> more",
+            // a relative section reference in the first section
+            "@&(=~1)dough{}", "= A\n@&(=~1)x{} and @&(=~2)y{}", "@&(=1)z{}",
+            // a front matter that does not start at byte 0, with a value that gets a diagnostic
+            "\n\n---\ntitle: [a\n---\nstep", "\u{feff}\n---\nservings: many\ntime: x\n---\n", "  \n \n---\nlocale: english\nprep time: soon\n---\n@a{}", "\n\n\n\n\n---\n- a\n- b\n---\n",
+            // intermediate-reference syntax under every subset of the two modifier extensions
+            "Use @(1)x{} and @&(1)x{}", "Mix.\n\nUse @&(1)x{}", "#(1)p{} #&(~1)p{}",
+            // durations with a zero amount of something that is no time unit, repeated hour groups
+            ">> time: 0 parsecs", ">> time: 1 h 0 bananas", ">> prep time: 0 km", ">> time: 1h2h", ">> cook time: 1h1h30m", "---\ntime: {prep: 0h2h5m, cook: 0 g}\n---",
+            // blank component parts wrapped over a line break
+            "@salt{1%\n}", "~\n{5%min}", "#pan|\n{}", "~egg{5%\n}", "@x{\n%kg}", "@y|\n z{}",
+            // descending ranges
+            "@potatoes{1.5-1%kg} bake at 220-180 C ~{60-45%min}", "@x{5-2%kg} @y{2-2%l}",
             // names that are only a path prefix, with the recipe marker
             "@@..{}", "@@/{}", "@@.{}", "@@dir/..{}", "@@./{}", "@@../{}", "@@./ {1}", "@@a/b/{}", "@@ {}",
             // servings followed directly by letters and numerals that are not ASCII
